@@ -152,6 +152,23 @@ Proof.
   destruct (c =? col); cbn [bind]; [|reflexivity].
   destruct (upd (sp_val s) k x); reflexivity.
 Qed.
+(* all of them at once: what a Props file pins as  model_is_source_<property>  *)
+Definition model_is_source_Sparse : Prop :=
+  (forall (r c nz : nat), @s_sp_new_nonzero A r c nz = Ok (mkS r c nz (repeat zero nz) (repeat 0 nz) (repeat 0 (c + 1)))) /\
+  (forall (r c : nat) v (ri cs : list nat), s_sp_from_vecs r c v ri cs = sp_from_vecs r c v ri cs) /\
+  (forall s (ci : list nat), s_sp_col_start_from_index s ci = sp_col_start_from_index s ci) /\
+  (forall s x, s_sp_scale s x = sp_scale s x) /\
+  (forall s, s_sp_col_index s = sp_col_index s) /\
+  (forall s v, s_sp_mul s v = sp_mul s v) /\
+  (forall s v, s_sp_tmul s v = sp_tmul s v) /\
+  (forall s, s_sp_to_triplets s = sp_to_triplets s) /\
+  (forall s, s_sp_to_dense s = sp_to_dense s) /\
+  (forall s, s_sp_transpose s = sp_transpose s) /\
+  (forall (s : sparse A) (row col : nat), s_sp_get s row col = sp_get s row col) /\
+  (forall (s : sparse A) (row col : nat) (x : T A), s_sp_insert s row col x = sp_insert s row col x).
+Lemma model_is_source_Sparse_lemma : model_is_source_Sparse.
+Proof. exact (conj src_sp_new_nonzero (conj src_sp_from_vecs (conj src_sp_col_start_from_index (conj src_sp_scale (conj src_sp_col_index (conj src_sp_mul (conj src_sp_tmul (conj src_sp_to_triplets (conj src_sp_to_dense (conj src_sp_transpose (conj src_sp_get src_sp_insert))))))))))). Qed.
+
 End SrcEqSparse.
 
 (* identity_preconditioner is modelled in Model/Iter.v (package C08), over an arithmetic with a square root *)
